@@ -26,6 +26,9 @@ func checkC07(c *Ctx) {
 	c.Rule("C07/R7", "space classification is applied to decoded runes, not to single bytes converted to runes")
 	c.Rule("C07/R8", ".config in a filter and .unit in a projection are rejected with a syntax error")
 
+	c.Rule("C07/R12", "any string is usable as a quoted literal: every token returned by the quoted-word scanner has the quoted-word kind or is the error token, independent of its text")
+	c.Rule("C07/R11", "rejections are positioned: every error returned by NewFilter, ProjectionParser.Parse and their closures is nil, a *parse.SyntaxError built there, or passed on unchanged from ParseFilter/ParseProjection or a recursive call — never a helper's bare error")
+	c.Rule("C07/R10", "token modes: the value tokenizer (the only place a leading '/' starts a regexp) is not reachable from the projection parser")
 	c.Rule("C07/R9", "no error is overwritten unseen: in the parsers and in the filter/projection constructors an error produced by a call inside a loop is compared with nil (or returned) inside that loop, so an invalid operand that is not the last one is still rejected")
 	p := mustLoad(c, loadOpts{}, "./benchproc", "./benchproc/internal/parse", "./storage/query", "./analysis/app")
 	scanPkgs := []string{"benchproc/internal/parse", "benchproc", "storage/query", "analysis/app"}
@@ -97,6 +100,9 @@ func checkC07(c *Ctx) {
 	c07R6(c, p)
 	c07R7(c, p)
 	c07LoopErrors(c, p)
+	c07Modes(c, p)
+	c07Positioned(c, p)
+	c07QuotedKind(c, p)
 }
 
 // byteIndexOf: v is a byte read s[i] (string Lookup or load of IndexAddr); returns the index value.
@@ -974,4 +980,196 @@ func c07LoopErrors(c *Ctx, p *Prog) {
 	}
 	c.OK(R, "loop-errors:all-tested", "", fmt.Sprintf("%d error values produced inside loops in %d functions are all tested inside their loop", n, nf))
 	_ = n
+}
+
+// c07Modes: regular expressions exist only in filter values. The value tokenizer (which reads a leading '/' as the
+// start of a regexp) must not be reachable from the projection parser: there a word such as /usr/lib in a fixed-order
+// list is a plain word.
+func c07Modes(c *Ctx, p *Prog) {
+	const R = "C07/R10"
+	pk := "benchproc/internal/parse"
+	pp := p.Fn(pk, "ParseProjection")
+	vo := p.Method(pk, "tokenizer", "valueOrOp")
+	if pp == nil || vo == nil {
+		c.Undecided(R, "anchor:ParseProjection/valueOrOp", "", "not found")
+		return
+	}
+	reach := staticReach([]*ssa.Function{pp}, modPath+"/"+pk)
+	n := 0
+	var bad []string
+	for _, f := range reach {
+		if f == vo {
+			continue
+		}
+		n++
+		eachInstr(f, func(_ *ssa.BasicBlock, in ssa.Instruction) {
+			if call, ok := in.(*ssa.Call); ok && call.Call.StaticCallee() == vo {
+				bad = append(bad, fnName(f)+" ("+p.pos(call.Pos())+")")
+			}
+		})
+	}
+	sort.Strings(bad)
+	c.Check(len(bad) == 0, R, "projection-parser:no-value-tokens", p.pos(pp.Pos()), fmt.Sprintf("none of the %d functions of the projection parser reads a value token", n),
+		fmt.Sprintf("the projection parser reads a token in value mode in %v: a list word that starts with '/' is scanned as a regular expression, so projections such as dir@(/usr/lib /opt) are rejected although the words contain no special character", bad))
+	c.Floor(R, "functions reachable from the projection parser", n, 2)
+}
+
+// c07Positioned: every error the filter and projection constructors return is positioned: it is a *parse.SyntaxError
+// built on the spot, or comes unchanged from the expression parsers (which return nothing else), or from a recursive
+// call of the same constructor code. An error of a helper (the extractor constructor) returned as is has no offset.
+func c07Positioned(c *Ctx, p *Prog) {
+	const R = "C07/R11"
+	synT := p.Named("benchproc/internal/parse", "SyntaxError")
+	if synT == nil {
+		c.Undecided(R, "anchor:parse.SyntaxError", "", "type not found")
+		return
+	}
+	var roots []*ssa.Function
+	if f := p.Fn("benchproc", "NewFilter"); f != nil {
+		roots = append(roots, f)
+	}
+	if f := p.Method("benchproc", "ProjectionParser", "Parse"); f != nil {
+		roots = append(roots, f)
+	}
+	if f := p.Method("benchproc", "ProjectionParser", "makeProjection"); f != nil {
+		roots = append(roots, f)
+	}
+	inSet := map[*ssa.Function]bool{}
+	var add func(f *ssa.Function)
+	add = func(f *ssa.Function) {
+		if inSet[f] {
+			return
+		}
+		inSet[f] = true
+		for _, a := range f.AnonFuncs {
+			// only closures that themselves return an error take part
+			if a.Signature.Results().Len() > 0 && isErrorType(a.Signature.Results().At(a.Signature.Results().Len()-1).Type()) {
+				add(a)
+			}
+		}
+	}
+	for _, r := range roots {
+		add(r)
+	}
+	n := 0
+	for f := range inSet {
+		res := f.Signature.Results()
+		if res.Len() == 0 || !isErrorType(res.At(res.Len()-1).Type()) {
+			continue
+		}
+		for _, b := range f.Blocks {
+			ret, ok := b.Instrs[len(b.Instrs)-1].(*ssa.Return)
+			if !ok {
+				continue
+			}
+			var origins []string
+			var walk func(v ssa.Value, d int)
+			walk = func(v ssa.Value, d int) {
+				if d > 6 {
+					origins = append(origins, "other:deep")
+					return
+				}
+				switch x := v.(type) {
+				case *ssa.Const:
+					origins = append(origins, "nil")
+				case *ssa.MakeInterface:
+					if pt, ok := x.X.Type().(*types.Pointer); ok && types.Identical(pt.Elem(), synT) {
+						origins = append(origins, "syntaxerror")
+					} else {
+						origins = append(origins, "other:"+x.X.Type().String())
+					}
+				case *ssa.Phi:
+					for _, e := range x.Edges {
+						walk(e, d+1)
+					}
+				case *ssa.Extract:
+					if call, ok := x.Tuple.(*ssa.Call); ok {
+						if sc := call.Call.StaticCallee(); sc != nil {
+							switch {
+							case inSet[sc]:
+								origins = append(origins, "same")
+							case sc.Pkg != nil && sc.Pkg.Pkg.Path() == modPath+"/benchproc/internal/parse" && strings.HasPrefix(sc.Name(), "Parse"):
+								origins = append(origins, "parser")
+							default:
+								origins = append(origins, "call:"+fnName(sc))
+							}
+						} else {
+							origins = append(origins, "same") // the recursive walk closure, called through its variable
+						}
+					} else {
+						origins = append(origins, "other")
+					}
+				case *ssa.UnOp:
+					if al, ok := x.X.(*ssa.Alloc); ok {
+						for _, r := range *al.Referrers() {
+							if st, ok := r.(*ssa.Store); ok && st.Addr == al {
+								walk(st.Val, d+1)
+							}
+						}
+						return
+					}
+					origins = append(origins, "other")
+				case *ssa.Call:
+					if sc := x.Call.StaticCallee(); sc != nil {
+						origins = append(origins, "call:"+fnName(sc))
+					} else {
+						origins = append(origins, "other")
+					}
+				default:
+					origins = append(origins, "other")
+				}
+			}
+			walk(retLast(ret), 0)
+			n++
+			badO := ""
+			for _, o := range origins {
+				if strings.HasPrefix(o, "call:") || strings.HasPrefix(o, "other") {
+					badO = o
+				}
+			}
+			c.Check(badO == "", R, fmt.Sprintf("%s:return#%d", fnName(f), n), p.pos(ret.Pos()), "returns nil, a positioned syntax error, or one passed on from the parsers",
+				"an error is returned as it came from "+strings.TrimPrefix(badO, "call:")+", not as a *parse.SyntaxError with the offset of the offending key: the rejection of e.g. an empty key is no longer positioned inside the expression")
+		}
+	}
+	c.Floor(R, "error returns of the filter and projection constructors", n, 8)
+}
+
+// c07QuotedKind: whatever is inside quotes is a literal: every token the quoted-word scanner returns is of the
+// quoted-word kind (or the error token), whatever its text — in particular "AND" and "OR" in quotes are words.
+func c07QuotedKind(c *Ctx, p *Prog) {
+	const R = "C07/R12"
+	pk := "benchproc/internal/parse"
+	fn := p.Method(pk, "tokenizer", "quotedWord")
+	if fn == nil {
+		c.Undecided(R, "anchor:tokenizer.quotedWord", "", "not found")
+		return
+	}
+	site := p.pos(fn.Pos())
+	mk := func() *e6Interp {
+		return &e6Interp{PureCall: func(f *types.Func) bool { return true },
+			Inline: func(f *ssa.Function) bool {
+				return f.Pkg == fn.Pkg && f != fn && f.Parent() == nil && len(naturalLoops(f)) == 0 && len(f.Blocks) <= 12
+			}, MaxAtoms: 18}
+	}
+	outs, why := regionOutcomes(fn, mk, 4096)
+	if why != "" {
+		c.Undecided(R, "quotedWord:table", site, why)
+		return
+	}
+	n := 0
+	for _, o := range outs {
+		if o.Term != "return" || len(o.Results) < 1 {
+			continue
+		}
+		n++
+		kind := fieldOfSym(o.Results[0], "Kind", nil, nil)
+		ks := "?"
+		if kind != nil {
+			ks = kind.String()
+		}
+		ok := ks == "113" || ks == "0"
+		c.Check(ok, R, fmt.Sprintf("quotedWord:return#%d", n), site, "returns a quoted-word token or the error token",
+			fmt.Sprintf("the quoted-word scanner returns a token of kind %s when %s: a quoted \"AND\" or \"OR\" (also spelled with escapes) becomes an operator, so values or keys with those names cannot be written at all", ks, truncate(o.AssignStr(), 160)))
+	}
+	c.Floor(R, "returns of the quoted-word scanner", n, 3)
 }
